@@ -18,7 +18,7 @@ ASSUMPTIONS = ['generated functions are deterministic and equality-respecting (f
                'exclusions by construction are listed under excluded_by_construction']
 EXCLUDED = dict(G.EXCLUSIONS)
 
-N = {'quick': 500, 'thorough': 3000}
+N = {'quick': 700, 'thorough': 5000}
 SHARDS = {'quick': 4, 'thorough': 16}
 
 
@@ -66,7 +66,7 @@ def _strata_sib(tier):
     # string-keyed persistent archives with sibling argument pairs (x:y / x|y / x y ...)
     sib = G.strata_grid(modules=('std', 'safe'), algos=('lru', 'inf'), purges=(False,), families=('persist', 'direct'), maxsizes=(2, None),
                         weights={'call': 10, 'dump': 2, 'clear': 2, 'load': 1}, max_ops=12, pool=(2, 4), confusable_pct=100)
-    return [('siblings/' + n, s.map(_sibling_scenario)) for n, s in sib] + _strata(tier)
+    return [('siblings/' + n, s.map(_sibling_scenario), 3) for n, s in sib] + _strata(tier)
 
 
 def _strata(tier):
